@@ -37,6 +37,8 @@ def cases(seed, tier):
     cs = sim_cases(seed + 2, tier)
     for i, c in enumerate(cs):
         c["targets_mode"] = ["some", "all", "none", "one"][i % 4]
+        if i % 5 == 3:
+            c["starved"] = True
         if i % 4 == 1:
             # utility written with a reduction over a stacked vector (not broadcast-safe) and requested as a target
             c["force"] = sorted(set((c["force"] or []) + ["stacked"]))
